@@ -27,6 +27,7 @@ type Opts struct {
 	Timestamps     bool // allow unquoted timestamps in "any" positions (YAML only)
 	OnlyCommandish bool // only command steps and groups (signing worlds)
 	ShareSubtrees  bool // reuse generated subtrees (rendered as YAML anchor + aliases)
+	TwoKindSteps   bool // now and then a step mapping carries keys of two step kinds
 	counter        int
 	pool           []*Node
 	shareID        int
@@ -69,6 +70,9 @@ func (o *Opts) AnyValue(pos string, depth int) *Node {
 	case 0:
 		return Str(o.str(pos + ".val"))
 	case 1:
+		if t.Draw(8, pos+":bigint") == 7 {
+			return Int([]int64{9007199254740993, -9007199254740993, 9223372036854775807, 4294967296, 9007199254740991}[t.Draw(5, pos+":bigintv")])
+		}
 		return Int(int64(t.Draw(2000, pos+":int")) - 1000)
 	case 2:
 		return Bool(t.Draw(2, pos+":bool") == 1)
@@ -275,6 +279,11 @@ func (o *Opts) Matrix() *Node {
 		n := min + t.Draw(4, "matrix:nvals")
 		s := &Node{Kind: KSeq, Seq: []*Node{}}
 		for i := 0; i < n; i++ {
+			if t.Draw(10, "matrix:emptyval") == 9 {
+				// the empty string is a legal matrix value
+				s.Seq = append(s.Seq, Str(""))
+				continue
+			}
 			s.Seq = append(s.Seq, o.scalarish(pos))
 		}
 		return s
@@ -552,8 +561,44 @@ func (o *Opts) contentsStep(kindKey string, pos string) *Node {
 	return m
 }
 
-// Step generates one step.
+// Step generates one step. Now and then a mapping step also carries a key of ANOTHER step kind (legal: the
+// kind is then decided by the documented priority order, whatever the order of keys in the document).
 func (o *Opts) Step(depth int) *Node {
+	n := o.step(depth)
+	if o.OnlyCommandish || !o.TwoKindSteps || n.Kind != KMap || n.Has("type") || n.Has("steps") {
+		return n
+	}
+	t := o.T
+	if t.Draw(12, "step:second-kind") != 11 {
+		return n
+	}
+	k := []string{"wait", "block", "trigger", "plugins", "command", "input", "waiter"}[t.Draw(7, "step:second-kind-key")]
+	if n.Has(k) {
+		return n
+	}
+	var v *Node
+	switch k {
+	case "plugins":
+		v = Seq(Map().Set(o.str("plugin.source"), Null()))
+	case "command":
+		v = Str(o.str("command"))
+	case "trigger":
+		v = Str(o.str("trigger.val"))
+	default:
+		v = Null()
+	}
+	// placed first or last in the document
+	if t.Draw(2, "step:second-kind-first") == 1 {
+		nn := Map().Set(k, v)
+		for i, kk := range n.Keys {
+			nn.Set(kk, n.Vals[i])
+		}
+		return nn
+	}
+	return n.Set(k, v)
+}
+
+func (o *Opts) step(depth int) *Node {
 	t := o.T
 	kinds := 10
 	k := t.Draw(kinds, "step:kind")
